@@ -513,7 +513,14 @@ def check_case(case: dict) -> List[Tuple[str, str]]:
         res = run_prog(case["ops"][0], case["prog"])
     else:
         res = [(f"{case['op']}.{cl}", det) for cl, det in run_op(case["op"], case["ops"], case.get("args", []))]
-    return [] if _MISMATCH[0] else res          # ill-typed operands (the library says so itself): out of scope
+    # Operations that UNIFY their operands' axes (where, project) are only defined on operands of one index type;
+    # when the library itself diagnoses a type mismatch there, the case is outside the property ("well-typed").
+    # The elementwise binary operations anti-unify instead and must work on any same-shape operands: never skipped.
+    unifying = ("where", "project")
+    names = [case.get("op")] + [st[0] for st in case.get("prog", [])]
+    if _MISMATCH[0] and any(n in unifying for n in names if n):
+        return []
+    return res
 
 
 def replay_case(case: dict) -> bool:
